@@ -790,6 +790,44 @@ func runC16(c *eng.Ctx) {
 	})
 
 	// ---- 7. line protocol: the shared row builder starts every line empty -----------------------------------------------------------
+	// ---- 5b. a pooled batch has one releaser ----------------------------------------------------------------------------------------------
+	// (channelManager.Write gives the batch back to the pool on every exit; a second Release - by the HTTP handler that parsed it,
+	// say - puts the same object into the pool twice and two overlapping requests then fill, sort and route ONE batch: rows of one
+	// request are lost, rows of the other are duplicated or written to the other request's database)
+	c.Rule("OWNER", bbrT+".Release{one releaser}", func() {
+		owner(c, "call of BrokerBatchRows.Release", eng.AnyCallTo(bbrT+".Release"), []string{"replica.channelManager.Write"}, 1)
+		w := c.Fn("replica.channelManager.Write")
+		rel := p.Sites(w, eng.AnyCallTo(bbrT+".Release"))
+		for i, s := range rel {
+			_, isDefer := s.Instr.(*ssa.Defer)
+			c.Check(isDefer || len(rel) == 1, fmt.Sprintf("released-once[%d]", i), s.Instr, w, "the batch is released once, by a deferred call", "")
+		}
+	})
+
+	// ---- 6a. the family range rows are grouped by ends where the next family starts ------------------------------------------------------
+	// (a calculator whose family START is taken from the local calendar - time.Date(…, time.Local): a day, a month - must take the
+	// END from the calendar too; "start + 24h - 1" is the end of that day only when the day has 24 hours. On a 25-hour day the
+	// group's own range excludes the row that opened it and HasNextFamily ends the shard's iteration: the rest is dropped)
+	c.Rule("SYMMETRY", "pkg/timeutil{family end computed like family start}", func() {
+		calendar := func(f *ssa.Function) bool {
+			return len(p.Sites(f, eng.CallTo("time.Date"))) > 0 || len(p.Sites(f, eng.AnyCallTo("time.Time.AddDate"))) > 0
+		}
+		n := 0
+		for _, t := range []string{"day", "month", "year"} {
+			st := p.Func("pkg/timeutil." + t + ".CalcFamilyStartTime")
+			en := p.Func("pkg/timeutil." + t + ".CalcFamilyEndTime")
+			if st == nil || en == nil {
+				continue
+			}
+			n++
+			c.Check(calendar(st) == calendar(en), "start-and-end-agree:"+t, nil, en,
+				"the "+t+" calculator computes the family end through the calendar exactly when it computes the family start through the calendar", fmt.Sprintf("start uses the calendar: %v, end: %v", calendar(st), calendar(en)))
+		}
+		if n < 3 {
+			c.Undecided("unresolved anchor: expected the day, month and year calculators, found %d", n)
+		}
+	})
+
 	// ---- 6b. a failed shard/family write of a batch is reported: the error the batch write returns is sticky -----------------------
 	c.Rule("ERRFLOW", "replica.databaseChannel.Write{a failed family write is not forgotten}", func() {
 		f := c.Fn("replica.databaseChannel.Write")
